@@ -60,7 +60,9 @@ _Ev.declare("ev", ("e_kind", z3.IntSort()), ("e_a", Z.Val), ("e_b", Z.Val), ("e_
 Event = _Ev.create()
 EvArr = z3.ArraySort(z3.IntSort(), Event)
 
-SPECIAL_SORTS = {"$len": IntArr, "$cls": IntArr, "$item": ItemArr}
+MHasArr = z3.ArraySort(z3.IntSort(), z3.ArraySort(Z.Val, z3.BoolSort()))
+MValArr = z3.ArraySort(z3.IntSort(), z3.ArraySort(Z.Val, Z.Val))
+SPECIAL_SORTS = {"$len": IntArr, "$cls": IntArr, "$item": ItemArr, "$mhas": MHasArr, "$mval": MValArr}
 
 isa = z3.Function("isa", z3.IntSort(), z3.IntSort(), z3.BoolSort())
 
@@ -479,6 +481,29 @@ class Ctx:
         if isinstance(v, VDict):
             return len(v.items) > 0
         return True
+
+    def isa_formula(self, cidt, cls):
+        """isa(cid, cls) for a symbolic class id, instantiating the lattice facts against every class already related to cid"""
+        reg = self.E.classes
+        key = cidt.sexpr()
+        known = self.ghost.setdefault(("symcls", key), [])
+        kid = reg.cid(cls)
+        if cls not in known:
+            base = ExternalRef("BaseException")
+            for other in known + [base]:
+                if other == cls:
+                    continue
+                oid = reg.cid(other)
+                if reg.is_sub(cls, other):
+                    self.assume(z3.Implies(isa(cidt, kid), isa(cidt, oid)))
+                if reg.is_sub(other, cls):
+                    self.assume(z3.Implies(isa(cidt, oid), isa(cidt, kid)))
+            known.append(cls)
+            # the unknown class may BE one of the named classes: then its subclass facts are the concrete ones
+            for k1 in known + [base]:
+                for k2 in known + [base]:
+                    self.assume(z3.Implies(cidt == reg.cid(k1), isa(cidt, reg.cid(k2)) == reg.is_sub(k1, k2)))
+        return isa(cidt, kid)
 
     def note(self, s):
         if s not in self.notes:
